@@ -15,7 +15,7 @@ func ContextRefRename(from, to string) func(excellent.Expression) bool {
 		exp.Visit(func(e excellent.Expression) {
 			if fn, ok := e.(*excellent.AnonFunction); ok {
 				for _, arg := range fn.Args {
-					if strings.EqualFold(arg, from) {
+					if sameName(arg, from) {
 						fn.Body.Visit(func(b excellent.Expression) {
 							if ref, ok := b.(*excellent.ContextReference); ok {
 								bound[ref] = true
@@ -28,11 +28,17 @@ func ContextRefRename(from, to string) func(excellent.Expression) bool {
 
 		changed := false
 		exp.Visit(func(e excellent.Expression) {
-			if ref, ok := e.(*excellent.ContextReference); ok && !bound[ref] && strings.EqualFold(ref.Name, from) {
+			if ref, ok := e.(*excellent.ContextReference); ok && !bound[ref] && sameName(ref.Name, from) {
 				ref.Name = to
 				changed = true
 			}
 		})
 		return changed
 	}
+}
+
+// names are matched the way the evaluator matches them (by lower case, see XObject.Get and functions.Lookup) and not
+// by strings.EqualFold which also holds for e.g. "reſults" and "results"
+func sameName(n1, n2 string) bool {
+	return strings.ToLower(n1) == strings.ToLower(n2)
 }
